@@ -258,9 +258,19 @@ func main() {
 	ff := loadFindings()
 	var excl []string
 	open := map[string]finding{}
+	seenSig := map[string]bool{}
 	for _, f := range ff.Findings {
-		if f.Status == "open" && f.Property == prop {
+		if f.Status != "open" {
+			continue
+		}
+		// every open finding is excluded by construction in every check (one
+		// root cause can surface through several properties); the
+		// KNOWN-FINDING lines are printed for the entries of this property
+		if !seenSig[f.Signature] {
+			seenSig[f.Signature] = true
 			excl = append(excl, f.Signature)
+		}
+		if f.Property == prop {
 			open[f.Signature] = f
 		}
 	}
